@@ -27,6 +27,12 @@ CLAIMED['C05'] = ('irsym', 'bounded symbolic execution of the clang IR with floa
 CLAIMED['C06'] = ('irsym', 'bounded symbolic execution of the clang IR over the exact reals; z3 nlsat proves M*X == I and X*M == I (cross-multiplied) or the documented singular outcome on every path',
     'For inverse()/gjInverse() of Matrix22/33/44 (affine fast path pinned, general 3x3, Gauss-Jordan 3x3; general 4x4 in the thorough tier) every execution path returns a two-sided inverse, or exactly the identity together with the documented reason (|det| <= min*|cofactor|, resp. det == 0 on a zero pivot); exactly singular input returns the identity / throws invalid_argument.',
     ENGC_NOTE, '3/C06')
+CLAIMED['C09'] = ('irsym', 'bounded symbolic execution of the clang IR over the exact reals; z3 nlsat; sin/cos as constrained pairs',
+    'Every set* builder is proved to act on an arbitrary point as documented; translate/scale/shear (all overloads) and Matrix44::rotate are proved equal to the set* matrix times a FULLY GENERAL current matrix (all entries free), Matrix22/33::rotate to right multiplication; setEulerAngles/setAxisAngle are proved orthonormal with determinant +1, axis-fixing and equal to the Rodrigues formula for every non-zero axis.',
+    ENGC_NOTE + ' Frame builders (alignZAxisWithTargetDir etc.) are thorough-tier and budgeted; firstFrame/nextFrame/lastFrame are not attempted.', '3/C09')
+CLAIMED['C14'] = ('irsym', 'bounded symbolic execution of the clang IR over the exact reals, one case per sign pattern of the direction; existential geometric facts are discharged as z3 queries with a free ray parameter',
+    'For every box (also empty/flat), origin and direction in the stated range: a miss is proved to mean that NO t>=0 (resp. no real t) puts the point in the closed box (fresh universally quantified t, no second slab implementation as oracle), a hit that ip/entry/exit lie in the box, on the ray, at the origin if inside else at the first contact on the surface, ordered and extreme - on every one of the ~350 paths per sign pattern.',
+    ENGC_NOTE + ' IEEE overflow of the guarded divisions is outside this engine.', '3/C14')
 NOT_YET = 'check not built yet in this working session (planned in DESIGN.md section 3); no claim is made'
 NA = {}
 
@@ -57,7 +63,7 @@ def main():
         'engines': [
             {'name': 'cbmc-c', 'path': 'harness/c01/half_c.c + vf/cbmc.py', 'serves_properties': ['C01', 'C02'], 'kind_free_text': 'CBMC on half.h compiled as C'},
             {'name': 'ir2c', 'path': 'vf/ll2c.py + vf/build.py + vf/cbmc.py', 'serves_properties': sorted(CLAIMED), 'kind_free_text': 'clang++-14 -O1 LLVM IR of wrapper TUs (real headers / real .cpp) -> own IR->C translator -> CBMC (minisat/cadical/kissat/z3/cvc5)'},
-            {'name': 'irsym', 'path': 'vf/irsym.py + vf/symcase.py', 'serves_properties': ['C05', 'C06'], 'kind_free_text': 'own symbolic executor over the same LLVM IR, floats as exact reals, z3 nlsat'},
+            {'name': 'irsym', 'path': 'vf/irsym.py + vf/symcase.py', 'serves_properties': ['C05', 'C06', 'C09', 'C14'], 'kind_free_text': 'own symbolic executor over the same LLVM IR, floats as exact reals, z3 nlsat'},
         ],
         'checks': checks,
         'not_applicable': na,
